@@ -17,7 +17,7 @@ fn panic_violation(ctx: &mut Ctx, monitor: &'static str, subject: &str, b: &[u8]
     ctx.violate(
         "no-panic",
         subject,
-        &format!("panic@{}", crate::mon::c01::stage()),
+        &format!("panic@{}", crate::drive::site_file(&p.site)),
         || bytes_case(monitor, b),
         "parser and accessors return normally",
         format!("panic at {}: {}", short_site(&p.site), p.msg),
